@@ -29,7 +29,8 @@ RULE += (
     "decorator come and go - a later one may live where an earlier one did - calling their method with the "
     "same arguments through 5 conventions). The short-lived-instances unit also puts two or three calls in "
     "flight together on a fresh instance (same / different arguments; all, the first or the last body "
-    "failing): every call ends with its own body's outcome."
+    "failing): every call ends with its own body's outcome. Unit finished futures: deduplicate / aretry over "
+    "async_proxy callables that hand back finished futures computed from state that changes between calls."
 )
 ASSUMPTIONS = ["bodies are deterministic, so cached wrappers (alru_cache, acached_per_instance, deduplicate) return the twin's value on every call"]
 UNIT_TIMEOUT = {"quick": 200, "thorough": 1200}
